@@ -210,6 +210,7 @@ class Engine:
         self.sidecar = sidecar
         self.lemmas_used = set()
         self.assumed_contracts = set()   # callee contracts used but not proved here (bounded / axiom)
+        self.contracts_called = set()    # every callee contract a verified function relied on
         self.le_len = {}          # id of an integer term -> ids of sequence-length terms it is known not to exceed
         self.nonneg = set()       # ids of integer terms known to be >= 0 (bound indices, loop counters)
         self._nonneg_keep = []    # (keeps the terms alive so that ids are not reused)
